@@ -3,6 +3,7 @@ package checks
 import (
 	"crypto/x509"
 	"crypto/x509/pkix"
+	"encoding/asn1"
 	"fmt"
 	"os"
 	"path/filepath"
@@ -144,6 +145,15 @@ func c02CertDevs() []certDev {
 		{"cn-other-spacing", true, func(p *world.PKI, pos int) []*x509.Certificate {
 			return reissue(p, pos, func(s *world.CertSpec, _ **x509.Certificate, _ **world.Key) {
 				s.CN = " " + strings.Replace(s.CN, " ", "  ", 1)
+			})
+		}},
+		// two common-name attributes: the role's name first, another role's name last (the last one is the
+		// certificate's common name; a match on any CN attribute lets the other-role certificate through)
+		{"two-cn-attributes:role-first", true, func(p *world.PKI, pos int) []*x509.Certificate {
+			return reissue(p, pos, func(s *world.CertSpec, _ **x509.Certificate, _ **world.Key) {
+				n := world.IntelName("")
+				n.ExtraNames = []pkix.AttributeTypeAndValue{{Type: asn1.ObjectIdentifier{2, 5, 4, 3}, Value: s.CN}, {Type: asn1.ObjectIdentifier{2, 5, 4, 3}, Value: world.CNTcb}}
+				s.Name = &n
 			})
 		}},
 		{"cn-of-other-role", true, func(p *world.PKI, pos int) []*x509.Certificate {
